@@ -1610,6 +1610,8 @@ pub fn run(ctx: &Ctx) {
     for f in FAMILIES {
         run_family(ctx, f, thorough);
     }
+    // CFF2 variable fonts through variations::instance (CFF2::instance_char_strings, HVAR) against the blend model
+    crate::c12cff2::run_phase(ctx);
     if thorough {
         run_full_grid(ctx);
     }
@@ -1625,6 +1627,9 @@ pub fn run(ctx: &Ctx) {
 
 pub fn replay(w: &Value) -> Result<(), String> {
     let family = w["family"].as_str().ok_or("witness has no family")?.to_string();
+    if family == "cff2" {
+        return crate::c12cff2::replay(w);
+    }
     let idx: Vec<usize> = w["idx"].as_array().ok_or("witness has no idx")?.iter().map(|v| v.as_u64().unwrap_or(0) as usize).collect();
     let user: Vec<i32> = w["user_tuple_16.16"].as_array().ok_or("witness has no user tuple")?.iter().map(|v| v.as_i64().unwrap_or(0) as i32).collect();
     let case = gen(&family, &idx).ok_or("the index vector does not denote a case")?;
